@@ -21,7 +21,11 @@ RULE = ("class chains and well-formed call shapes of C01; for each, the complete
         "of every chain in turn. Non-trivial = expected trace has >= 3 events or a fault is injected; "
         "distinct = distinct (class spec, call, fault, switch)")
 ASSUMPTIONS = c01.ASSUMPTIONS + [
-    "callbacks are instrumented closures recording (kind, field, index, canonical arguments); a fault is a UserError raised by exactly one of them",
+    "callbacks are instrumented closures recording (kind, field, index, canonical arguments); a fault is ONE exception object raised "
+    "by exactly one of them, of a class drawn per case from: an Exception subclass, StopIteration, a StopIteration subclass, "
+    "StopAsyncIteration, GeneratorExit, a BaseException subclass, subclasses of AttributeError / TypeError / KeyError; `exc = user` "
+    "means that very object came out of the call; during construction every Attribute handed to a callback must be the one "
+    "`fields(type(inst))` lists (else it prints as `foreign-attr.<name>`)",
     "the 'slotted confused' hierarchy shape (plain class between a hooked attrs base and a slotted subclass) is generated only by C06, where it is known finding K6",
 ]
 EXHAUSTIVE = {"quick": False, "thorough": False}
@@ -32,8 +36,15 @@ LEVEL_TEXT = ("Lean theorems about the trace semantics of the modelled initializ
               "correspondence with single-fault enumeration at every trace position and runs with validators disabled.")
 
 
-def make_case(hspec, call, fault, enabled):
+FAULT_KINDS = sorted(ib.FAULT_EXCS)
+
+
+def make_case(hspec, call, fault, enabled, exc=None):
     h = dict(hspec, validators_enabled=enabled)
+    if fault and (exc or hspec.get("fault_exc")):
+        h["fault_exc"] = exc or hspec.get("fault_exc")      # which exception class the faulty callback raises
+    else:
+        h.pop("fault_exc", None)
     run, is_define, cls_on = ib.run_in(h, fault)
     return {"run": run, "call": call, "isDefine": is_define, "clsOnSet": cls_on, "hspec": h, "fault": fault}
 
@@ -56,7 +67,7 @@ def gen_cases(tier, rng):
             yield make_case(h, call, None, False)
             for e in obs["trace"]:
                 i = e["id"]
-                yield make_case(h, call, [i["kind"], i["field"], i["idx"]], True)
+                yield make_case(h, call, [i["kind"], i["field"], i["idx"]], True, rng.choice(FAULT_KINDS))
 
 
 def defines(case):
@@ -87,6 +98,7 @@ def nontrivial(case, model):
 def dist(case, obs):
     d = c01.dist(case, obs)
     d["fault_kind"] = (case.get("fault") or ["none"])[0]
+    d["fault_exc"] = case["hspec"].get("fault_exc") or ("user" if case.get("fault") else "-")
     d["validators_enabled"] = case["hspec"].get("validators_enabled", True)
     d["trace_len"] = len(obs.get("trace", [])) if isinstance(obs, dict) else -1
     return d
@@ -98,6 +110,8 @@ def shrink(case):
             yield make_case(c["hspec"], c["call"], case.get("fault"), case["hspec"].get("validators_enabled", True))
         except Exception:  # noqa: BLE001
             continue
+    if case.get("fault") and case["hspec"].get("fault_exc") not in (None, "user"):
+        yield make_case(case["hspec"], case["call"], case["fault"], case["hspec"].get("validators_enabled", True), "user")
     if case.get("fault"):
         yield make_case(case["hspec"], case["call"], None, case["hspec"].get("validators_enabled", True))
 
@@ -110,4 +124,4 @@ def neighbours(case, rng):
         yield make_case(h, call, None, True)
         for e in obs["trace"]:
             i = e["id"]
-            yield make_case(h, call, [i["kind"], i["field"], i["idx"]], True)
+            yield make_case(h, call, [i["kind"], i["field"], i["idx"]], True, rng.choice(FAULT_KINDS))
